@@ -50,26 +50,27 @@ Sum(s) == FoldLeft(LAMBDA a, b : a + b, 0, s)
 IsOdd(n) == n % 2 = 1
 OddKernel(kh, kw) == IsOdd(kh) /\ IsOdd(kw)
 
-\* kernel entry (a,b); 0 outside the kernel's support
-KAt(K, kh, kw, a, b) == IF a >= 0 /\ a < kh /\ b >= 0 /\ b < kw THEN K[a * kw + b + 1] ELSE 0
-
-\* The centred kernel: offset d = <<dy,dx>> from the centre, |dy| <= kh \div 2, |dx| <= kw \div 2.
-Centred(K, kh, kw, d) == KAt(K, kh, kw, d[1] + kh \div 2, d[2] + kw \div 2)
+\* Kernel entry n (flat, row-major) sits at this offset from the kernel centre: the CENTRED kernel Kc has
+\* Kc[Offsets[n]] = K[n], and Kc[d] = 0 for every other offset d.
+Offsets(kh, kw) == [n \in 1 .. kh*kw |-> << ((n-1) \div kw) - (kh \div 2), ((n-1) % kw) - (kw \div 2) >>]
+Centred(K, kh, kw, d) ==
+    LET a == d[1] + kh \div 2
+        b == d[2] + kw \div 2
+    IN IF a >= 0 /\ a < kh /\ b >= 0 /\ b < kw THEN K[a * kw + b + 1] ELSE 0
 
 \* a native image read at any integer position: zero outside the frame
 ImgAt(img, c, H, W) == IF InFrame(c, H, W) THEN img[Lin(c, W) + 1] ELSE 0
-
-\* the offsets of the centred kernel, as a sequence
-Offsets(kh, kw) == [n \in 1 .. kh*kw |-> << ((n-1) \div kw) - (kh \div 2), ((n-1) % kw) - (kw \div 2) >>]
 
 \* Full 2D convolution of a native image with the centred kernel, zero outside the frame:
 \*   (img * K)[t] = SUM over offsets d of Kc[d] * img[t - d]      ("flipped": the image index runs against d)
 Full(img, K, H, W, kh, kw, t) ==
     LET off == Offsets(kh, kw)
-    IN Sum([n \in 1 .. kh*kw |-> Centred(K, kh, kw, off[n]) * ImgAt(img, <<t[1] - off[n][1], t[2] - off[n][2]>>, H, W)])
+    IN Sum([n \in 1 .. kh*kw |-> K[n] * ImgAt(img, <<t[1] - off[n][1], t[2] - off[n][2]>>, H, W)])
 
 \* whole-frame convolution (what Kernel2D.convolved_array_from computes on an unmasked array)
 WholeFrame(img, K, H, W, kh, kw) == [n \in 1 .. H*W |-> Full(img, K, H, W, kh, kw, CellOf(n-1, W))]
+\* ... read on a sequence of cells (= GatherOn(WholeFrame(..), cells, W), without evaluating the other cells)
+WholeFrameOn(img, K, H, W, kh, kw, cells) == [k \in 1 .. Len(cells) |-> Full(img, K, H, W, kh, kw, cells[k])]
 
 \* gather a native image onto a sequence of cells
 GatherOn(native, cells, W) == [k \in 1 .. Len(cells) |-> native[Lin(cells[k], W) + 1]]
@@ -95,8 +96,9 @@ MaskedBlurOfNative(u, K, H, W, kh, kw, native) ==
 
 Zeros(n) == [k \in 1 .. n |-> 0]
 Unit(n, j) == [k \in 1 .. n |-> IF k = j THEN 1 ELSE 0]
-NoBlur(u, K, H, W, kh, kw, img) ==
-    MaskedBlur(u, K, H, W, kh, kw, img, Zeros(Cardinality(Blurring(u, H, W, kh, kw))))
+\* blurring without a blurring image: nothing but the image on the mask enters (= a blurring image of zeros,
+\* theorem ScatterIsMaskedBlur)
+NoBlur(u, K, H, W, kh, kw, img) == MaskedBlurB(u, {}, K, H, W, kh, kw, img, << >>)
 
 \* Blurring a mapping matrix (sequence of |u| rows, each a sequence of P entries) = the image operator on each column.
 Column(mat, p) == [k \in 1 .. Len(mat) |-> mat[k][p]]
@@ -157,7 +159,8 @@ ConvolveByFrames(fr, img, blur, nOut) == AddSeq(Scatter(fr.img, img, nOut), Scat
 ScatterMatrix(frames, mat, nOut) ==
     IF Len(mat) = 0 THEN << >>
     ELSE LET P == Len(mat[1])
-             col(p) == Scatter(frames, [k \in 1 .. Len(mat) |-> IF mat[k][p] # 0 THEN mat[k][p] ELSE 0], nOut)
+             rows == FrameRows(frames, nOut)
+             col(p) == ApplyRows(rows, [k \in 1 .. Len(mat) |-> IF mat[k][p] # 0 THEN mat[k][p] ELSE 0], nOut)
              cols == [p \in 1 .. P |-> col(p)]
          IN [k \in 1 .. nOut |-> [p \in 1 .. P |-> cols[p][k]]]
 
@@ -275,28 +278,31 @@ FramesImplementDefinition ==
 \* ... and on a signed image with junk outside mask and blurring region the scatter-accumulate gives the definition
 ScatterIsMaskedBlur ==
     Seen => LET nat == ProbeImage(HH, WW)
+                k   == Kern
                 img == GatherOn(nat, SlimSeq(U, HH, WW), WW)
                 bl  == GatherOn(nat, BlSeq(U, HH, WW, KH, KW), WW)
-            IN /\ ConvolveByFrames(frames, img, bl, NU) = MaskedBlurOfNative(U, Kern, HH, WW, KH, KW, nat)
-               /\ Scatter(frames.img, img, NU) = NoBlur(U, Kern, HH, WW, KH, KW, img)
+                def == MaskedBlurOfNative(U, k, HH, WW, KH, KW, nat)
+            IN /\ ConvolveByFrames(frames, img, bl, NU) = def
+               /\ Scatter(frames.img, img, NU) = NoBlur(U, k, HH, WW, KH, KW, img)
+               /\ NoBlur(U, k, HH, WW, KH, KW, img) = MaskedBlur(U, k, HH, WW, KH, KW, img, Zeros(Len(bl)))
                \* linearity: the definition is the operator tables applied to the two vectors
-               /\ MaskedBlurOfNative(U, Kern, HH, WW, KH, KW, nat)
-                    = AddSeq(ApplyOp(OpImage(U, Kern, HH, WW, KH, KW), img, NU), ApplyOp(OpBlur(U, Kern, HH, WW, KH, KW), bl, NU))
+               /\ def = AddSeq(ApplyOp(OpImage(U, k, HH, WW, KH, KW), img, NU), ApplyOp(OpBlur(U, k, HH, WW, KH, KW), bl, NU))
+               \* whole-frame convolution agrees with the masked blurring on the mask, whatever lies outside
+               \* mask + blurring region (the probe image is non-zero everywhere)
+               /\ WholeFrameOn(nat, k, HH, WW, KH, KW, SlimSeq(U, HH, WW)) = def
 
 \* the matrix shortcut (skip exact zeros) is the image operator applied to every column, for signed matrices
 MatrixIsColumnwise ==
-    Seen => ScatterMatrix(frames.img, ProbeMatrix(NU), NU) = BlurMatrix(U, Kern, HH, WW, KH, KW, ProbeMatrix(NU))
+    Seen => LET m == ProbeMatrix(NU) IN ScatterMatrix(frames.img, m, NU) = BlurMatrix(U, Kern, HH, WW, KH, KW, m)
 
-\* whole-frame convolution agrees with the masked blurring on the mask, whatever lies outside mask + blurring region;
 \* hence simulate (whole frame) -> mask -> fit with the generating image leaves a residual of exactly zero
 SimulateThenFitResidualZero ==
     Seen => LET nat  == ProbeImagePos(HH, WW)
-                data == GatherOn(WholeFrame(nat, Kern, HH, WW, KH, KW), SlimSeq(U, HH, WW), WW)
+                us   == SlimSeq(U, HH, WW)
+                data == GatherOn(WholeFrame(nat, Kern, HH, WW, KH, KW), us, WW)
                 model == MaskedBlurOfNative(U, Kern, HH, WW, KH, KW, nat)
-            IN [k \in 1 .. NU |-> data[k] - model[k]] = Zeros(NU)
-WholeFrameAgreesOnMask ==
-    Seen => LET nat == ProbeImage(HH, WW)
-            IN GatherOn(WholeFrame(nat, Kern, HH, WW, KH, KW), SlimSeq(U, HH, WW), WW) = MaskedBlurOfNative(U, Kern, HH, WW, KH, KW, nat)
+            IN /\ [k \in 1 .. NU |-> data[k] - model[k]] = Zeros(NU)
+               /\ data = WholeFrameOn(nat, Kern, HH, WW, KH, KW, us)
 
 \* every unmasked pixel couples to itself through the central kernel entry; homogeneity in the kernel
 CentreAndHomogeneity ==
